@@ -120,7 +120,11 @@ func (h *clientConnectionHandler) onConnectionAccepted(connection *CqlServerConn
 			h.connections[clientAddr] = holder
 		}
 		holder.ch <- connection
-		h.anyConnChan <- connection
+		select {
+		case h.anyConnChan <- connection:
+		default:
+			// nobody is draining AcceptAny and its buffer is full: do not block the accept loop while holding the lock
+		}
 		return nil
 	}
 }
